@@ -4,6 +4,7 @@ import os
 import tempfile
 
 import numpy
+from unittest import mock
 from hypothesis import strategies as st
 
 from pbt import files, gridded as G
@@ -93,10 +94,29 @@ class World:
         return self.S.catalog(self.S.region(), obs=obs)
 
 
+class PassDidNotTerminate(Exception):
+    pass
+
+
+def capped_next(cap):
+    """CatalogForecast.__next__ with a call counter: an operation that advances the forecast more than `cap` times is cut off
+    (a pass that never ends is decided by count, not by time)"""
+    from csep.core.forecasts import CatalogForecast
+    orig = CatalogForecast.__next__
+    n = [0]
+
+    def counted(self):
+        n[0] += 1
+        if n[0] > cap:
+            raise PassDidNotTerminate("forecast advanced more than %d times in one operation" % cap)
+        return orig(self)
+    return counted
+
+
 def rows(cat):
     out = []
     for r in cat.catalog.tolist():
-        out.append((r[0].decode() if isinstance(r[0], bytes) else str(r[0]),) + tuple(r[1:]))
+        out.append((r[0].decode("utf-8", "backslashreplace") if isinstance(r[0], bytes) else str(r[0]),) + tuple(r[1:]))
     return out
 
 
@@ -111,7 +131,12 @@ def result_key(r):
 def run_op(W, fc, op):
     from csep.core import catalog_evaluations as CE
     if op == "iterate":
-        return [(c.catalog_id, rows(c)) for c in fc]
+        out = []
+        for c in fc:
+            out.append((c.catalog_id, rows(c)))
+            if len(out) > 20 * (W.n + 1):
+                raise PassDidNotTerminate("one pass yielded more than %d catalogs (forecast has %d)" % (20 * (W.n + 1), W.n))
+        return out
     if op == "event_counts":
         return numpy.array(fc.get_event_counts(verbose=False)).tolist()
     if op == "expected_rates":
@@ -146,7 +171,13 @@ class Session:
             return
         self.hist.append(op)
         hist = list(self.hist)
-        o = call(run_op, W, fc, op)
+        from csep.core.forecasts import CatalogForecast
+        with mock.patch.object(CatalogForecast, "__next__", capped_next(200 * (W.n + 1))):   # an operation makes a few passes
+            o = call(run_op, W, fc, op)
+        if not o.ok and isinstance(o.exc, PassDidNotTerminate):
+            ctx.violation("pass_does_not_terminate", {"history": hist, "op": op, "why": str(o.exc)}, dict(W.case, ops=hist))
+            self.dead = True
+            return
         if not o.ok:
             ctx.unexpected(o, "op:" + op + (":first" if len(hist) == 1 else ":after_history"))
             self.dead = True
@@ -185,7 +216,12 @@ class Session:
                 bad = ("magnitude_counts_not_marginal_of_mean", {"history": hist})
         else:
             if op not in self.fresh:
-                fo = call(lambda: run_op(W, W.forecast(), op))
+                with mock.patch.object(CatalogForecast, "__next__", capped_next(200 * (W.n + 1))):
+                    fo = call(lambda: run_op(W, W.forecast(), op))
+                if not fo.ok and isinstance(fo.exc, PassDidNotTerminate):
+                    ctx.violation("pass_does_not_terminate", {"history": [op], "op": op, "why": str(fo.exc), "fresh_object": True}, dict(W.case, ops=[op]))
+                    self.dead = True
+                    return
                 if not fo.ok:
                     ctx.unexpected(fo, "fresh:" + op)
                     self.dead = True
